@@ -43,9 +43,9 @@ func TestWorker(t *testing.T) {
 				stuck = 0
 			}
 			last = cur
-			if stuck >= 18 {
-				fmt.Fprintln(os.Stderr, "WATCHDOG: no simulation progress for 90s; goroutine dump follows")
-				pprof.Lookup("goroutine").WriteTo(os.Stderr, 1)
+			if stuck >= 9 {
+				fmt.Fprintln(os.Stderr, "WATCHDOG: no simulation progress for 45s; goroutine dump follows")
+				pprof.Lookup("goroutine").WriteTo(os.Stderr, 2)
 				os.Exit(3)
 			}
 		}
